@@ -22,14 +22,17 @@ import time
 from common import Inconclusive, add_violations_from_bad, finish, log
 
 
-def threads(fns):
+def threads(fns, limit=4):
+    """Run callables concurrently, at most `limit` at a time (staggered starts); re-raise the first exception."""
     res, errs = [None] * len(fns), []
+    sem = threading.Semaphore(limit)
 
     def wrap(i, f):
-        try:
-            res[i] = f()
-        except BaseException as e:  # noqa
-            errs.append(e)
+        with sem:
+            try:
+                res[i] = f()
+            except BaseException as e:  # noqa
+                errs.append(e)
     ts = []
     for i, f in enumerate(fns):
         t = threading.Thread(target=wrap, args=(i, f))
